@@ -517,8 +517,13 @@ func refinableUF(op string) bool {
 	return strings.HasPrefix(op, "pure:") || op == "jstr" || op == "tolower" || op == "itoa"
 }
 
-func trickyCandidates(q []*Term) []*Term {
-	var out []*Term
+type candidate struct {
+	a *Term
+	v string
+}
+
+func trickyCandidates(q []*Term) []candidate {
+	var out []candidate
 	seen := map[*Term]bool{}
 	var atoms []*Term
 	for _, u := range subterms(q, func(t *Term) bool { return t.kind == KApp && t.uf && refinableUF(t.op) }) {
@@ -529,10 +534,46 @@ func trickyCandidates(q []*Term) []*Term {
 			}
 		}
 	}
-	sort.Slice(atoms, func(i, j int) bool { return atoms[i].id < atoms[j].id })
+	// atoms that flow into library stand-ins other than the JSON serialiser first
+	prio := map[*Term]bool{}
+	for _, u := range subterms(q, func(t *Term) bool { return t.kind == KApp && t.uf && refinableUF(t.op) && t.op != "jstr" }) {
+		for a := range u.Atoms() {
+			prio[a] = true
+		}
+	}
+	sort.Slice(atoms, func(i, j int) bool {
+		if prio[atoms[i]] != prio[atoms[j]] {
+			return prio[atoms[i]]
+		}
+		return atoms[i].id < atoms[j].id
+	})
 	for _, v := range trickyStrings {
 		for _, a := range atoms {
-			out = append(out, TEq(a, TStr(v)))
+			out = append(out, candidate{a, v})
+		}
+	}
+	return out
+}
+
+// candidateLemmas: with atom a pinned to value v, the native values of the refinable symbols whose
+// arguments mention no other variable.
+func candidateLemmas(e *Engine, q []*Term, a *Term, v string) []*Term {
+	var out []*Term
+	mod := &Model{Str: map[string]string{a.op: v}, Int: map[string]int64{}, Bool: map[string]bool{}, UF: e.evalUF}
+	for _, u := range subterms(q, func(t *Term) bool { return t.kind == KApp && t.uf && refinableUF(t.op) }) {
+		only := true
+		for x := range u.Atoms() {
+			if x != a {
+				only = false
+			}
+		}
+		if !only {
+			continue
+		}
+		if nat, err := mod.Eval(u); err == nil {
+			if c := constTermOf(nat, u.sort); c != nil {
+				out = append(out, TEq(u, c))
+			}
 		}
 	}
 	return out
